@@ -12,7 +12,7 @@ from concurrent.futures import ThreadPoolExecutor
 import vlib
 import c16_harness as H
 
-AMAX_PLAIN = 0x7ffffff        # any allocator refuses calloc(0xffffffff, 16); the only huge count the matrix sends is 0xffffffff
+AMAX_PLAIN = 0x7ffffff        # allocator limit handed to the model's decoder; no cell of the matrix gets as far as an allocation that large
 
 
 def hdr(ver, ty, ln):
@@ -33,6 +33,7 @@ BAD = {
     'bad_version': lambda ty: hdr(2, ty, 0),
     'str_wrap': lambda ty: hdr(1, 0x10, 5) + b'\x05\xff\xff\xff\xff',
     'arr_huge': lambda ty: hdr(1, 0x10, 7) + b'\x07\x01\xff\xff\xff\xff\x00',
+    'deep_nest': lambda ty: hdr(1, 0x10, 6 * 400000 + 1) + b'\x07\x01\x01\x00\x00\x00' * 400000 + b'\x00',
     'err_long': lambda ty: hdr(1, 0x11, 1000) + b'E' * 1000,
 }
 EXITS = {'exit0': 'x0', 'exit1': 'x1', 'kill9': 'k'}
@@ -157,7 +158,7 @@ def model_outcomes(ref, cell, ncalls, sigign, hang_resolve=True):
         if line in seen:
             continue
         seen.add(line)
-        o = vlib.run_lines(ref, [line])[0].split()
+        o = H.run_model(ref, [line])[0].split()
         st = o[0]
         if st.startswith('hang:') and hang_resolve:
             # the fake is not silent forever: its hang ends with an exit; the VM is blocked at this label until then
@@ -241,16 +242,6 @@ def run_matrix(ck, b, ref, K, sig_ignored):
                     'co-process fault %s: VM outcome %s violates containment' % (name, cls), replay)
         if len(ck.cov['samples']) < 3 and c['fault'] in ('close_stdin', 'exit1', 'wrong_type') and c['step'] == 'reply':
             ck.sample(dict(cell=name, observed=list(cls), model_allows=sorted(set(map(str, allowed)))))
-    # replies whose decoding needs more C stack than there is: outside the model (recursion depth of cop_deserialize_value is
-    # not bounded by the model), checked against the property only
-    for c in [dict(step='reply', k=1, fault='deep_nest')]:
-        o = H.run_cell(env0, c, hang_s=1.5)
-        cls = H.classify(o, ncalls)
-        ck.count(('cell', 'extra', c['fault']), nontrivial=True)
-        if not property_ok(cls, ncalls):
-            ck.fail('c16:sigsegv:reply-decoder:' + c['fault'], 'co-process reply %s: VM outcome %s violates containment' % (c['fault'], cls),
-                    dict(case='cell', cell=c, ncalls=ncalls, unmodelled=True, observed=dict(cls=list(cls), rc=o['rc'], stderr=o['stderr'][-300:]),
-                         engine='nano_vm --isolate-ffi vs fake_cop'))
     ck.extra['matrix'] = dict(K=K, cells=len(cs), steps=H.STEPS, faults=H.FAULTS, per_fault=dist, observed_status=outcomes,
                               model_mismatches=mism, property_violations=viol)
     return env0
@@ -319,7 +310,8 @@ def run(ck):
                 dict(case='signals', correspondence='gen_signals.py vs /proc/<pid>/status'))
     ck.cov['rule'] = ('every cell of {before READY, after READY, before reading request k, instead of reply k, in the middle of reply k} x k<=K x '
                       '{exit0, exit1, SIGKILL, close stdin, close stdout, close both, hang-then-exit, truncated, oversized length, wrong type, '
-                      'garbage, wrong version, undecodable value (string length wrap), undecodable value (huge array count), over-long error text}; '
+                      'garbage, wrong version, undecodable value (string length 0xffffffff), undecodable value (array count 0xffffffff), undecodable value '
+                      '(400000 nested arrays), over-long error text}; '
                       'one real nano_vm --isolate-ffi run per cell; all cells non-trivial (a fault is injected in each)')
     ck.extra['exhaustive'] = True
     ck.trusted += ['OS rules of NV/Proto/CopClient.v (pipe write/read/EOF/EPIPE/SIGPIPE, waitpid, SIGTERM) as a description of POSIX',
@@ -331,7 +323,6 @@ def run(ck):
     ck.assumptions += ['the co-process does not block or ignore SIGTERM (vm_ffi_cop_stop waits for it without a timeout after SIGTERM)',
                        'messages fit the pipe buffer (writes to an open pipe do not block); fork/pipe do not fail',
                        'a peer that stays silent forever with its pipe ends open blocks the VM forever (outcome Hang; excluded from the property\'s fault list)',
-                       'the C stack suffices for the nesting depth of a reply (recursion of cop_deserialize_value is bounded by the buffer in the model, by the stack in C; see finding deep_nest)',
                        'stdout of the VM is a file or pipe (fully buffered): output is lost exactly when the VM is killed by a signal']
 
 
